@@ -240,13 +240,39 @@ def coq_make(targets, timeout=1800):
     return rc == 0, out
 
 
-def forbidden_scan():
-    """no Admitted/admit/Axiom/Parameter/... anywhere in the development."""
+def dep_closure(targets):
+    """transitive .v dependencies of the given .vo targets, from coq_makefile's .Makefile.d"""
+    deps = {}
+    p = os.path.join(COQ, ".Makefile.d")
+    if not os.path.exists(p):
+        return None
+    for line in open(p).read().replace("\\\n", " ").split("\n"):
+        if ":" not in line:
+            continue
+        lhs, rhs = line.split(":", 1)
+        outs = [x for x in lhs.split() if x.endswith(".vo")]
+        ins = [x for x in rhs.split() if x.endswith(".vo")]
+        for o in outs:
+            deps.setdefault(o, set()).update(ins)
+    seen, todo = set(), [t for t in targets]
+    while todo:
+        t = todo.pop()
+        if t in seen:
+            continue
+        seen.add(t)
+        todo += list(deps.get(t, ()))
+    return sorted(x[:-1] for x in seen)
+
+
+def forbidden_scan(files=None):
+    """no Admitted/admit/Axiom/Parameter/... in the given files (default: whole development)."""
     bad = []
     pat = re.compile(r"\b(Admitted|admit|Axiom|Axioms|Parameter|Parameters|Conjecture|Abort All|"
                      r"Unset Guard Checking|Unset Positivity Checking|Unset Universe Checking|"
                      r"bypass_check|Admit Obligations|native_compute)\b")
-    for f in coq_files():
+    for f in (files if files is not None else coq_files()):
+        if not os.path.exists(os.path.join(COQ, f)):
+            continue
         txt = open(os.path.join(COQ, f)).read()
         txt = re.sub(r"\(\*.*?\*\)", "", txt, flags=re.S)
         # Variable/Hypothesis outside a section
@@ -438,7 +464,11 @@ def prove(ctx, prop_file, extra_targets=()):
     targets = [prop_file + "o"] + [t for t in extra_targets]
     ok, out = coq_make(targets)
     ctx.proof_log = out
-    bad = forbidden_scan()
+    closure = dep_closure(targets)
+    bad = forbidden_scan(closure)
+    other = [b for b in forbidden_scan() if b not in bad] if closure is not None else []
+    ctx.coverage["forbidden_scan"] = {"files_in_dependency_closure": len(closure) if closure else 0,
+                                      "hits_in_closure": bad, "hits_elsewhere_in_development": other[:20]}
     assum = print_assumptions(ctx.pid, prop_file)
     thms = list(assum.keys())
     discharged = 0
